@@ -201,6 +201,16 @@ func (propC14) Gen(r *Rng, run uint64, tier string) *Plan {
 	if r.Bool(0.3) {
 		spec.NMax = 1
 	}
+	if !sweep {
+		switch x := r.Intn(100); {
+		case x < 6:
+			spec.NMin, spec.NMax, spec.RecMax = 7, 16, 5
+		case x < 12:
+			spec.RecMax = 60
+		case x < 15:
+			spec.NoHuge, spec.Msg, spec.RecMax = false, "rich", 5
+		}
+	}
 	if sweep {
 		spec.NMax, spec.RecMax, spec.Msg = 3, 4, "token"
 		if r.Bool(0.4) {
